@@ -11,6 +11,7 @@ import props.C01 as C01
 
 RT = "quantarhei/qm/liouvillespace/redfieldtensor.py::"
 SO = "quantarhei/qm/liouvillespace/superoperator.py::"
+RP = "quantarhei/qm/propagators/rdmpropagator.py::"
 
 META = dict(
     category="proof",
@@ -18,7 +19,9 @@ META = dict(
           "complex - not only Hermitian - operand) to return sum_m K rho L+ + L rho K^T - K^T L rho - rho L+ K cell by "
           "cell, SuperOperator.apply to return the contraction sum_cd R[a,b,c,d] rho[c,d]; a Lean lemma whose hypotheses "
           "are those two postconditions and the postcondition of the operator-to-tensor conversion (C01) gives that both "
-          "forms act identically on every operator, for every number of states and bath components. Through that lemma "
+          "forms act identically on every operator, for every number of states and bath components. The two functions "
+          "that apply the same actions inside the propagation loops, rdmpropagator._OTI and _TTI, are proved to add "
+          "(dt/ll) times exactly those two expressions to the accumulated term. Through that lemma "
           "the operator-form propagation step inherits the trace/Hermiticity results of C02. Not decided here: equality "
           "of whole propagated dynamics (same generator is shown, truncation not needed), the time-zero / last-index "
           "limits of the time-dependent tensor, the analytic pure-dephasing limit."),
@@ -72,6 +75,40 @@ def contracts(reg):
                  ("operand-untouched", "oper.data is rho"),
                  ("result-is-a-new-object", "result is not oper")]))
 
+    # ---- the same two actions as they are applied inside the propagation loops (rdmpropagator._OTI / _TTI) -----------------------
+    # _OTI receives K^T explicitly (Kd[m] = Km[m]^T is built by its callers); stated with that as a precondition the
+    # accumulated term is the same OPTERM as for RedfieldRelaxationTensor.apply
+    def setup_oti(S):
+        n, nb = S.int("N"), S.int("Nb")
+        Km, Kd = S.array("Km", (nb, n, n), "real"), S.array("Kd", (nb, n, n), "real")
+        Lm, Ld = S.array("Lm", (nb, n, n), "cx"), S.array("Ld", (nb, n, n), "cx")
+        return dict(rhoY=S.array("rhoY", (n, n), "cx"), Km=Km, Kd=Kd, Lm=Lm, Ld=Ld, ll=S.int("ll"), dt=S.real("dt"),
+                    rho1=S.array("rho", (n, n), "cx"), N=n, Nb=nb, rho=None)
+
+    def ghost_oti(S, env):
+        env["rho"] = env["rho1"]
+    KT = "forall((m, i, j), (range(0, Nb), range(0, N), range(0, N)), Kd[m,i,j] == Km[m,j,i])"
+    reg.add(Contract(
+        RP + "_OTI", setup=setup_oti, ghost=ghost_oti, requires=["N >= 0", "Nb >= 0", "ll >= 1", ("Kd-is-K-transposed", KT)],
+        modifies=["rhoY"],
+        ensures=[("operator-form-action-added",
+                  "forall((a, b), %s, rhoY[a,b] == old(rhoY)[a,b] + (dt/ll)*Sum(mm, range(0, Nb), %s))"
+                  % (N2, OPTERM.format(m="mm"))),
+                 ("state-untouched", "forall((a, b), %s, rho1[a,b] == old(rho1)[a,b])" % N2)],
+        loops={0: dict(inv=["forall((a, b), %s, rhoY[a,b] == entry(rhoY)[a,b] + (dt/ll)*Sum(mm, range(0, _i), %s))"
+                            % (N2, OPTERM.format(m="mm"))],
+                       modifies=["rhoY"])}))
+
+    def setup_tti(S):
+        n = S.int("N")
+        return dict(rhoY=S.array("rhoY", (n, n), "cx"), RR=S.array("R", (n, n, n, n), "cx"), IR=0, ll=S.int("ll"),
+                    dt=S.real("dt"), rho1=S.array("rho", (n, n), "cx"), L=S.int("L"), N=n)
+    reg.add(Contract(
+        RP + "_TTI", setup=setup_tti, requires=["N >= 0", "ll >= 1", "L >= 1"], modifies=["rhoY"],
+        ensures=[("tensor-form-action-added",
+                  "forall((a, b), %s, rhoY[a,b] == old(rhoY)[a,b] + (dt/ll)*Sum(c, range(0, N), "
+                  "Sum(d, range(0, N), RR[a,b,c,d]*rho1[c,d])))" % N2)]))
+
 
 def lemma_forms_agree(ctx):
     """postconditions of the conversion (C01), of the operator-form apply and of the tensor-form apply are the hypotheses /
@@ -102,7 +139,7 @@ def lemma_forms_agree(ctx):
 def plan(ctx):
     p = Plan("C07")
     contracts(ctx.registry)
-    p.functions = [RT + "RedfieldRelaxationTensor.apply", SO + "SuperOperator.apply"]
+    p.functions = [RT + "RedfieldRelaxationTensor.apply", SO + "SuperOperator.apply", RP + "_OTI", RP + "_TTI"]
     p.lemmas = [lemma_forms_agree]
     p.not_decided = ["TDRedfieldRelaxationTensor.data[0] == 0 and data[-1] == static tensor (needs value-level contracts "
                      "of the two reference implementations over the spline antiderivative)",
